@@ -23,8 +23,8 @@ STUBS = []
 ENUM = ["all shape bits, node kinds, external references, back edge"]
 OUTSIDE = ["quality of the ordering", "graphs with more nodes than the bound", "return_stats=True"]
 BOUNDS = {
-    "quick": dict(nodes="<=3 (all 8 kinds + external refs), 4 (legacy kinds)", cyclic="one back edge, N<=3"),
-    "thorough": dict(nodes="<=4 (all kinds), 5 (legacy task/literal/list)", cyclic="one back edge, N<=4"),
+    "quick": dict(nodes="<=3 (all 8 kinds + external refs), 4 (legacy kinds), 5 (task/literal/list with node 0 a literal and node 4 a list-of-keys), 7 (fixed kinds list,task,literal,list,list,literal,list; all edge subsets)", cyclic="one back edge, N<=3"),
+    "thorough": dict(nodes="<=4 (all kinds), 5 (legacy task/literal/list), 6 (node 0 literal, nodes 4,5 lists), 7 (fixed kinds list,task,literal,list,list,literal,list)", cyclic="one back edge, N<=4"),
 }
 
 LEGACY = ("t", "d", "a", "l")
@@ -39,10 +39,10 @@ def f(*a):
     return a
 
 
-def gen(e, N, kinds, ext):
+def gen(e, N, kinds, ext, fixed=None):
     nodes = []
     for j in range(N):
-        kind = e.pick(f"kind{j}", kinds)
+        kind = fixed[j] if fixed and j in fixed else e.pick(f"kind{j}", kinds)
         deps = [i for i in range(j) if e.flag(f"e{i}_{j}")] if kind not in ("d", "D") else []
         x = bool(ext and kind in ("T", "L") and e.flag(f"x{j}"))
         nodes.append((kind, deps, x))
@@ -89,9 +89,9 @@ def build(nodes, back=None):
     return dsk, deps_of
 
 
-def mk(N, kinds, ext, tag):
+def mk(N, kinds, ext, tag, fixed=None):
     def setup(e):
-        return (gen(e, N, kinds, ext),)
+        return (gen(e, N, kinds, ext, fixed),)
 
     def run(e, nodes):
         dsk, deps_of = build(nodes)
@@ -145,9 +145,17 @@ def mk_cyclic(N, kinds):
     return Obligation(f"cyclic[N={N},{''.join(kinds)}]", setup, run)
 
 
+def ORPHAN():
+    """7 nodes with fixed kinds (list, task, literal, list, list, literal, list) and every edge subset: the smallest shape on which
+    literal roots are cut out and *all* their dependents are then peeled off as list-of-keys leaves"""
+    return mk(7, ("t", "d", "l"), False, "kinds=l,t,d,l,l,d,l", fixed={0: "l", 1: "t", 2: "d", 3: "l", 4: "l", 5: "d", 6: "l"})
+
+
 def obligations(tier):
     if tier == "quick":
         return [mk(1, LEGACY + SPEC, True, "all"), mk(2, LEGACY + SPEC, True, "all"), mk(3, LEGACY + SPEC, True, "all"),
-                mk(4, LEGACY, False, "legacy"), mk(4, ("t", "l", "T"), True, "tlT"), mk_cyclic(3, ("t", "l", "T"))]
+                mk(4, LEGACY, False, "legacy"), mk(4, ("t", "l", "T"), True, "tlT"),
+                mk(5, ("t", "d", "l"), False, "tdl;node0=data,node4=list", fixed={0: "d", 4: "l"}), ORPHAN(), mk_cyclic(3, ("t", "l", "T"))]
     return [mk(1, LEGACY + SPEC, True, "all"), mk(2, LEGACY + SPEC, True, "all"), mk(3, LEGACY + SPEC, True, "all"),
-            mk(4, LEGACY + SPEC, False, "all"), mk(4, ("t", "l", "a", "T"), True, "tlaT"), mk(5, ("t", "d", "l"), False, "tdl"), mk_cyclic(4, ("t", "l", "T", "a"))]
+            mk(4, LEGACY + SPEC, False, "all"), mk(4, ("t", "l", "a", "T"), True, "tlaT"), mk(5, ("t", "d", "l"), False, "tdl"), ORPHAN(),
+            mk(6, ("t", "d", "l"), False, "tdl;node0=data,node4,5=list", fixed={0: "d", 4: "l", 5: "l"}), mk_cyclic(4, ("t", "l", "T", "a"))]
